@@ -216,7 +216,7 @@ def decimalBits (sg dv : Nat) (e10 : Int) : Nat :=
   else sg + dOfRatQ dv (10 ^ (-e10).toNat)
 
 /-- decimal text with a fraction and an optional exponent: the digit value of `ip ++ fp` at decimal exponent `x − |fp|` -/
-theorem dDecimal_fraction (sg : Nat) (ip fp ex : Str) (x : Int) (hi : AllDigits ip) (hf : AllDigits fp) (hne : ip ≠ [])
+theorem dDecimal_fraction (sg : Nat) (ip fp ex : Str) (x : Int) (hi : AllDigits ip) (hf : AllDigits fp) (hne : ip ≠ [] ∨ fp ≠ [])
     (hx : ExpSyntax ex x) :
     dDecimal sg (ip ++ 46 :: (fp ++ ex)) = decimalBits sg (decVal (ip ++ fp)) (x - fp.length) := by
   have h46 : ∀ c, (46 :: (fp ++ ex)).head? = some c → isDigit c = false := by intro c hc; simp at hc; subst hc; decide
@@ -225,8 +225,11 @@ theorem dDecimal_fraction (sg : Nat) (ip fp ex : Str) (x : Int) (hi : AllDigits 
   have hv : digitsVal (ip ++ fp) 0 = decVal (ip ++ fp) := by
     have := digitsVal_all (ip ++ fp) hall [] (by intro c hc; cases hc) 0
     simpa using this
-  have hemp : ip.isEmpty = false := by cases ip <;> simp at hne ⊢
-  simp only [dDecimal, takeDigits_app ip _ hi h46, takeDigits_app fp ex hf hx.head_not_digit, hemp, Bool.false_and,
+  have hemp : (ip.isEmpty && fp.isEmpty) = false := by
+    rcases hne with h | h
+    · cases ip <;> simp at h ⊢
+    · cases fp <;> simp at h ⊢
+  simp only [dDecimal, takeDigits_app ip _ hi h46, takeDigits_app fp ex hf hx.head_not_digit, hemp,
     Bool.false_eq_true, if_false, expPart_syntax hx, hv, decimalBits]
   by_cases h0 : decVal (ip ++ fp) = 0
   · simp [h0]
@@ -251,7 +254,7 @@ theorem dOfStrMag_fraction (sg : Nat) (ip fp ex : Str) (x : Int) (hi : AllDigits
       startsWithCI_digit c _ hc 110 97 110 (by omega), Bool.false_eq_true, if_false]
     simp only [List.cons_append] at hhex
     simp only [hhex, Bool.false_eq_true, if_false]
-    have := dDecimal_fraction sg (c :: t) fp ex x hi hf hne hx
+    have := dDecimal_fraction sg (c :: t) fp ex x hi hf (Or.inl hne) hx
     simpa only [List.cons_append] using this
 
 /-- **`atof` of `ws* sign? digit+ . digit* ([eE] sign? digit+)?`**: the sign bit plus the conversion of the exact rational
@@ -282,6 +285,41 @@ theorem dOfStr_fraction (ws : Str) (sg : Sign) (ip fp ex : Str) (x : Int) (hw : 
       · rename_i heq; injection heq with e _; exact absurd e h3
       · rename_i heq; injection heq with e _; exact absurd e h2
       · simpa using this
+
+
+/-- the same without an integer part: `.5`, `.25e3` -/
+theorem dOfStrMag_fraction_noint (sg : Nat) (fp ex : Str) (x : Int) (hf : AllDigits fp) (hne : fp ≠ []) (hx : ExpSyntax ex x) :
+    dOfStrMag sg (46 :: (fp ++ ex)) = decimalBits sg (decVal fp) (x - fp.length) := by
+  have h1 : startsWithCI (46 :: (fp ++ ex)) [105, 110, 102] = false := by simp [startsWithCI, List.take, lower]
+  have h2 : startsWithCI (46 :: (fp ++ ex)) [110, 97, 110] = false := by simp [startsWithCI, List.take, lower]
+  have h3 : isHexFloat (46 :: (fp ++ ex)) = false := by
+    unfold isHexFloat
+    split
+    · rename_i x' t heq; injection heq with e _; exact absurd e (by decide)
+    · rfl
+  simp only [dOfStrMag, h1, h2, h3, Bool.false_eq_true, if_false]
+  have := dDecimal_fraction sg [] fp ex x (by intro c hc; cases hc) hf (Or.inr hne) hx
+  simpa using this
+
+theorem dOfStr_fraction_noint (ws : Str) (sg : Sign) (fp ex : Str) (x : Int) (hw : ∀ c ∈ ws, isSpace c = true)
+    (hf : AllDigits fp) (hne : fp ≠ []) (hx : ExpSyntax ex x) :
+    dOfStr (ws ++ sg.str ++ (46 :: (fp ++ ex))) = decimalBits (if sg.neg then 2 ^ 63 else 0) (decVal fp) (x - fp.length) := by
+  unfold dOfStr
+  rw [List.append_assoc, dropWhile_spaces _ _ hw]
+  cases sg with
+  | minus =>
+    have : isSpace 45 = false := by decide
+    simp only [Sign.str, List.cons_append, List.nil_append, List.dropWhile, this, Sign.neg, if_true]
+    exact dOfStrMag_fraction_noint _ fp ex x hf hne hx
+  | plus =>
+    have : isSpace 43 = false := by decide
+    simp only [Sign.str, List.cons_append, List.nil_append, List.dropWhile, this, Sign.neg]
+    simpa using dOfStrMag_fraction_noint 0 fp ex x hf hne hx
+  | none =>
+    have h1 : isSpace 46 = false := by decide
+    simp only [Sign.str, List.nil_append, List.dropWhile, h1, Sign.neg]
+    have := dOfStrMag_fraction_noint 0 fp ex x hf hne hx
+    simpa using this
 
 /-- non-vacuity: "-12.50e-1" -/
 example : dOfStr ([45] ++ ([49, 50] ++ 46 :: ([53, 48] ++ [101, 45, 49]))) = decimalBits (2 ^ 63) 1250 (-3) := by
